@@ -303,6 +303,27 @@ def ob_helpers(n):
     return FnOb(reals("a", n, -3.0, 3.0) + reals("b", n, -3.0, 3.0) + reals("q", n, 0.0, 1.0), run, expect_nonlinear=True)
 
 
+def ob_fisher_boundary():
+    """calc_fisher_matrix with the DEFAULT regularisation on a boundary distribution: an outcome probability below the documented
+    threshold 1e-8 is replaced by 1e-8 (the excess taken from the other entries), so the Fisher matrix stays finite and equals
+    sum_x g_x g_x^T / p'_x with the replaced p'"""
+    def run(I):
+        from quara.utils import matrix_util as MU
+        a = I["a"]
+        p = SymNd([a, 0.3, 0.7 - a]) if isinstance(a, Sym) else np.array([a, 0.3, 0.7 - a], dtype=np.float64)
+        g = [np.array([0.5, -0.2]), np.array([-0.1, 0.3]), np.array([-0.4, -0.1])]
+        F = MU.calc_fisher_matrix(p, g)
+        eps = 1e-8
+        pr = [eps, 0.3 - eps / 2, 0.7 - a - eps / 2]
+        ref = np.zeros((2, 2), dtype=object)
+        for x in range(3):
+            for i in range(2):
+                for j in range(2):
+                    ref[i, j] = ref[i, j] + g[x][i] * g[x][j] / pr[x]
+        return [Eq("Fisher matrix == sum g g^T / p' with the documented replacement threshold 1e-8", F, ref, 1e-3)]
+    return FnOb([("a", "real", 0.0, 5e-9)], run, max_paths=20, expect_nonlinear=True, eager_ite=True)
+
+
 def ob_data_analysis(typ, m):
     """data_analysis helpers used to compare simulated with analytical errors: calc_mse_qoperations == mean squared distance of the
     objects' FULL (stacked) parameter vectors, whatever the parametrisation flag; covariance helpers == (diag p - p p^T)/N and their
@@ -361,6 +382,7 @@ def obligations(tier):
             out += specs("C19.cov", [{"tomo": tomo, "m": m, "flag": flag, "N": 2, "testers": "mixed"}], ob_cov, 3)
             out += specs("C19.mse_linear", [{"tomo": tomo, "m": m, "flag": flag, "N": 1, "mode": md, "testers": "mixed"} for md in ("var", "qoperation")], ob_mse_linear, 10)
     out += specs("C19.helpers", [{"n": n} for n in (2, 3)], ob_helpers, 1)
+    out += specs("C19.fisher.boundary", [{}], ob_fisher_boundary, 1)
     out += specs("C19.data_analysis", [{"typ": "state", "m": 0}, {"typ": "povm", "m": 3}] + tiers(tier, [], [{"typ": "mprocess", "m": 2}]), ob_data_analysis, 2)
     return out
 
